@@ -2,13 +2,15 @@
 
 proof : lean/GeosModel/Props/C01.lean — predicate layer (named predicates = their DE-9IM patterns,
         determined_stable, early_exit_eq_final, basic_*_final) for all matrices / event sequences.
-tie   : (1) stream pred-sm  — the REAL RelatePredicate classes are driven with random event sequences and
+tie   : (1b) stream immatrix — the real geom::IntersectionMatrix (isXxx, matches, transpose) and GEOSRelatePatternMatch_r on random
+            matrices / dimensions / patterns vs Base/IM, the object of the named_*_eq_pattern theorems
+        (1) stream pred-sm  — the REAL RelatePredicate classes are driven with random event sequences and
             compared step by step with the Lean state machine;
         (2) stream relate-grid — generated valid grid pairs through every relate path of the C API; the
             driver evaluates the independent exact reference matrix (Model/Relate/Ref.lean) and what the
             proved definitions assign to it.  A difference *is* a violation of C01 (impl != exact DE-9IM).
 Known defects of RelateNG are matched by structural signatures against KNOWN_FINDINGS.json."""
-import os, json, glob
+import os, sys, json, glob
 import verif, gtok
 from verif import log
 
@@ -119,7 +121,29 @@ def run(ctx):
         "validity of generated inputs is filtered with GEOSisValid (a wrong 'valid' verdict could let an invalid input through)",
         "the geometric engine of RelateNG is not modelled: it is tied only by the relate-grid correspondence",
     ])
-    proved = ctx.prove(PROPS, extra_targets=(DRV,))
+    # ---- translator: the IntersectionMatrix predicates are regenerated from the current source; Props/C01Gen proves them equal
+    # to the model of Base/IM for all arguments
+    sys.path.insert(0, os.path.join(verif.ROOT, "translate"))
+    import im_preds
+    props = list(PROPS)
+    gen_ok = True
+    try:
+        im_preds.generate(verif.REPO, os.path.join(verif.ROOT, "lean", "GeosModel", "Generated", "IMPreds.lean"))
+        props.append("GeosModel.Props.C01Gen")
+    except (im_preds.Refuse, OSError) as ex:
+        gen_ok = False
+        ctx.violation("translate/im_preds.py refuses the current src/geom/IntersectionMatrix.cpp: %s (the generated model is stale; the `immatrix` "
+                      "correspondence stream below still compares the compiled predicates with the model)" % ex,
+                      {"kind": "tie-broken", "translator": "im_preds.py", "detail": str(ex)}, nofail=True)
+    proved = ctx.prove(props, extra_targets=(DRV,))
+    gen_diffs = []
+    if gen_ok and not proved:
+        # a gen_*_eq obligation may be what broke: enumerate the whole finite domain for a distinguishing argument
+        okb, outb = verif.lake_build(["drv_c01gen"])
+        if okb:
+            rcg, outg = verif.sh([verif.driver_path("drv_c01gen")], timeout=600)
+            gen_diffs = [l for l in outg.split("\n") if l.startswith("DIFF ")]
+        ctx.cov["generated_vs_model_scan"] = {"built": bool(okb), "differences": gen_diffs[:12]}
     ok, out = verif.build_geos("rel")
     if not ok:
         ctx.violation("GEOS does not build with -DGEOS_VERIF", {"kind": "build-failure", "log": out[-3000:]}, nofail=True)
@@ -131,6 +155,23 @@ def run(ctx):
     quick = ctx.tier == "quick"
     corr = {}
     found_input = False
+    for dl in gen_diffs[:6]:
+        # the regenerated code disagrees with the DE-9IM definition at this argument: run the compiled implementation there
+        kv = dict(t.split("=", 1) for t in dl.split()[2:] if "=" in t)
+        mtx = kv.get("matrix", "FFFFFFFF2"); da = kv.get("dimA", "2"); db = kv.get("dimB", "2")
+        pat = "T********" if "symbol" not in kv else (kv["symbol"] * 9)
+        if "value" in kv:      # matches(int, char): reach it through matches(pattern) on a matrix holding that value
+            v = int(kv["value"]); mtx = ({-1: "F", 0: "0", 1: "1", 2: "2"}.get(v, "F")) * 9
+        rc, out = verif.sh([exe, "imcase", mtx, da, db, pat], timeout=60)
+        lines = out.strip().split("\n")
+        rc2, ans = verif.run_driver_lines("immatrix", lines[:1], driver_exe=DRV) if len(lines) >= 2 else (1, [])
+        differs = len(lines) >= 2 and ans and ans[0] != lines[1]
+        if differs:
+            found_input = True
+        ctx.violation("IntersectionMatrix.cpp no longer equals the DE-9IM definition (Props/C01Gen): %s%s" % (dl, " — confirmed on the compiled library" if differs else ""),
+                      {"kind": "failing-input" if differs else "tie-broken", "stream": "impreds", "difference": dl,
+                       "case": lines[0] if lines else None, "impl": lines[1] if len(lines) > 1 else None, "definition": ans[0] if ans else None,
+                       "replay_cmd": "%s imcase %s %s %s %s" % (exe, mtx, da, db, pat)}, nofail=not differs, signature={"class": "impreds", "fn": dl.split()[1]})
 
     # ---- (1) predicate layer: real classes vs the Lean state machine
     r = verif.run_stream(exe, "pred-sm", ctx.seed, 200000 if quick else 4000000, ctx.work, shards=8, driver_exe=DRV)
@@ -151,6 +192,20 @@ def run(ctx):
                 seen_mid = True
                 ctx.violation("predicate state machine differs from the model at an intermediate step (final value agrees)",
                               {"kind": "tie-broken", "correspondence": "pred-sm", "case": case, "impl_trace": exp, "model_trace": got}, nofail=True)
+
+    # ---- (1b) geom::IntersectionMatrix (isXxx, matches, transpose) and GEOSRelatePatternMatch_r vs the IM model of the theorems
+    r = verif.run_stream(exe, "immatrix", ctx.seed, 150000 if quick else 3000000, ctx.work, shards=8, driver_exe=DRV)
+    corr["immatrix"] = {"cases": r["cases"], "disagreements": len(r["disagreements"]) + r.get("more_disagreements", 0), "distribution": r["stats"]}
+    if r["error"]:
+        ctx.violation("stream immatrix could not run: " + r["error"], {"kind": "tie-broken", "correspondence": "immatrix", "detail": r["error"]}, nofail=True)
+    elif r["disagreements"]:
+        idx, case, exp, got = r["disagreements"][0]
+        found_input = True
+        # the model side is the DE-9IM definition (named_*_eq_pattern, transpose algebra): a different answer is a wrong answer
+        ctx.violation("IntersectionMatrix / GEOSRelatePatternMatch answer differs from the DE-9IM definition: impl %s, definition %s" % (exp, got),
+                      {"kind": "failing-input", "stream": "immatrix", "case": case, "impl": exp, "model": got,
+                       "fields": "M <matrix> <dimA> <dimB> <pattern> -> disjoint intersects touches crosses within contains equals overlaps covers coveredBy | matches capiMatch | transpose"},
+                      signature={"class": "immatrix"})
 
     # ---- (2) whole-engine correspondence against the exact reference matrix
     n = 16000 if quick else 600000
